@@ -59,9 +59,9 @@ type Result struct {
 
 type noteCore struct{ w *fakeeth.World }
 
-func (c noteCore) Enabled(l zapcore.Level) bool        { return l >= zapcore.WarnLevel }
-func (c noteCore) With([]zapcore.Field) zapcore.Core   { return c }
-func (c noteCore) Sync() error                         { return nil }
+func (c noteCore) Enabled(l zapcore.Level) bool      { return l >= zapcore.WarnLevel }
+func (c noteCore) With([]zapcore.Field) zapcore.Core { return c }
+func (c noteCore) Sync() error                       { return nil }
 func (c noteCore) Check(e zapcore.Entry, ce *zapcore.CheckedEntry) *zapcore.CheckedEntry {
 	if c.Enabled(e.Level) {
 		return ce.AddCore(e, c)
